@@ -1177,6 +1177,35 @@ def timezone_probe(chk: core.Check) -> None:
             return
 
 
+def recycled_id_probe(chk: core.Check) -> None:
+    """A study that ran with heartbeats is deleted; SQLite hands its (highest) trial ids out again (known finding F12 of C01).
+    A trial created afterwards under such an id has NO recorded heartbeat of its own and must never be touched by a sweep -
+    so the deleted trials' heartbeat rows must be gone with them."""
+    from sqlalchemy import text
+
+    url = "sqlite:///" + os.path.join(chk.tmp, "recycled_%d.db" % os.getpid())
+    st = RDBStorage(url, heartbeat_interval=60, grace_period=120)
+    keep = optuna.create_study(storage=st, study_name="keep")
+    gone = optuna.create_study(storage=st, study_name="gone")
+    for _ in range(3):
+        t = gone.ask()
+        st.record_heartbeat(t._trial_id)
+    with st.engine.begin() as c:  # the beats are an hour old by the database clock
+        c.execute(text("UPDATE trial_heartbeats SET heartbeat = datetime(CURRENT_TIMESTAMP, '-3600 seconds')"))
+    optuna.delete_study(study_name="gone", storage=st)
+    fresh = [keep.ask() for _ in range(3)]  # ask/tell trials never record a heartbeat
+    sweeper = RDBStorage(url, heartbeat_interval=60, grace_period=120)
+    optuna.storages.fail_stale_trials(optuna.load_study(study_name="keep", storage=sweeper))
+    states = {t.number: t.state.name for t in keep.get_trials(deepcopy=False)}
+    chk.case({"part": "recycled-id-probe"}, nontrivial=True)
+    chk.count("recycled-id-probe")
+    bad = {n: s_ for n, s_ in states.items() if s_ != "RUNNING"}
+    if bad:
+        chk.violation({"kind": "not-stale-noticed", "scenario": "recycled-trial-id"}, {"part": "recycled-id-probe", "states": states},
+                      "trials %s of study 'keep' never recorded a heartbeat, yet fail_stale_trials moved them to %s: they were created under trial ids of a deleted study whose heartbeat rows survived the deletion" % (
+                          sorted(bad), sorted(set(bad.values()))))
+
+
 def search(chk: core.Check) -> None:
     """Failing-input search after a breakage: many more schedules; only the model-independent oracle matters."""
     c19_rdb.search(chk)  # boundary ages / retry arithmetic on the SQL side first (cheap, deterministic)
@@ -1204,6 +1233,7 @@ def main(chk: core.Check) -> int:
         chk.broke("correspondence", {"driver": str(e)[:800]})
     c19_rdb.correspond(chk, chk.tier)  # the SQL side: relational heartbeat model vs RDBStorage, virtual database clock
     timezone_probe(chk)  # real clocks, workers in other time zones
+    recycled_id_probe(chk)  # heartbeat rows of a deleted study vs SQLite's re-issued trial ids
     free_race(chk)
     chk.assumptions += [
         "one storage call = one atomic step: RDBStorage.set_trial_state_values changes the state with one conditional UPDATE (SQLite/SQLAlchemy statement + transaction semantics are trusted); the gated tie serialises calls, the free-running thread/process races sample the real interleavings without the model",
